@@ -1,1 +1,319 @@
-fn main(){}
+//! verif-pbt: property-based checks of algorand/pairing-plus against an independent reference model.
+//!
+//!   verif-pbt run <Cxx> [quick|thorough]     exit 0 held / 1 VIOLATION / 2 INCONCLUSIVE
+//!   verif-pbt replay <file>                  strict re-execution of one saved case
+//!   verif-pbt selftest                       oracle self-tests only
+//!   verif-pbt list
+
+mod adapt;
+mod engine;
+mod props;
+mod recipes;
+
+use engine::{Ctx, Tier};
+use serde_json::{json, Value};
+use std::path::{Path, PathBuf};
+
+fn root() -> PathBuf {
+    PathBuf::from(std::env::var("VERIF_ROOT").unwrap_or_else(|_| "/verif".to_string()))
+}
+
+fn env_u64(name: &str, default: u64) -> u64 {
+    std::env::var(name).ok().and_then(|s| s.trim().parse::<i128>().ok()).map(|v| v as u64).unwrap_or(default)
+}
+
+fn read_known(property: &str) -> (Vec<(String, String, String)>, Vec<String>) {
+    // returns (open findings as (property, sig, text), fixed lines)
+    let mut open = vec![];
+    let mut fixed = vec![];
+    if let Ok(s) = std::fs::read_to_string(root().join("known_findings.txt")) {
+        for line in s.lines() {
+            let l = line.trim();
+            if l.starts_with('#') || l.is_empty() {
+                continue;
+            }
+            if let Some(rest) = l.strip_prefix("open:") {
+                let rest = rest.trim();
+                let mut prop = String::new();
+                let mut sig = String::new();
+                let mut text = vec![];
+                for tok in rest.split_whitespace() {
+                    if let Some(p) = tok.strip_prefix("property=") {
+                        prop = p.to_string();
+                    } else if let Some(s) = tok.strip_prefix("sig=") {
+                        sig = s.to_string();
+                    } else {
+                        text.push(tok);
+                    }
+                }
+                if prop == property {
+                    open.push((prop, sig, text.join(" ")));
+                }
+            } else if l.starts_with("fixed:") && l.contains(&format!("property={}", property)) {
+                fixed.push(l.to_string());
+            }
+        }
+    }
+    (open, fixed)
+}
+
+fn start_watchdog(property: String, secs: u64) {
+    std::thread::spawn(move || {
+        std::thread::sleep(std::time::Duration::from_secs(secs));
+        println!("INCONCLUSIVE property={} watchdog after {} s (hang or overload; not a violation)", property, secs);
+        std::process::exit(2);
+    });
+}
+
+fn write_replay(property: &str, f: &engine::Failure, seed: u64) -> PathBuf {
+    let dir = root().join("replays");
+    let _ = std::fs::create_dir_all(&dir);
+    let path = dir.join(format!("{}-{}-seed{}-shard{}.json", property, f.sub, seed, f.shard));
+    let v = json!({
+        "property": property,
+        "sub": f.sub,
+        "message": f.message,
+        "seed": seed,
+        "shard": f.shard,
+        "case": f.case,
+    });
+    let _ = std::fs::write(&path, serde_json::to_string_pretty(&v).unwrap());
+    path
+}
+
+fn replay_file(path: &Path, quiet: bool) -> Result<(String, Result<(), String>), String> {
+    let s = std::fs::read_to_string(path).map_err(|e| format!("cannot read {}: {}", path.display(), e))?;
+    let v: Value = serde_json::from_str(&s).map_err(|e| format!("bad json in {}: {}", path.display(), e))?;
+    let property = v["property"].as_str().ok_or("no property field")?.to_string();
+    let sub = v["sub"].as_str().ok_or("no sub field")?.to_string();
+    let def = props::get(&property).ok_or(format!("unknown property {}", property))?;
+    let s = def.subs.iter().find(|s| s.name() == sub).ok_or(format!("unknown sub-check {}/{}", property, sub))?;
+    let r = s.replay(&v["case"]);
+    if !quiet {
+        match &r {
+            Ok(()) => println!("replay {}: property {} sub {} holds on this case", path.display(), property, sub),
+            Err(m) => println!("replay {}: property {} sub {} FAILS: {}", path.display(), property, sub, m),
+        }
+    }
+    Ok((property, r))
+}
+
+fn run(property: &str, tier: Tier) -> i32 {
+    let t0 = std::time::Instant::now();
+    let seed = env_u64("VERIF_SEED", 0);
+    let scale: f64 = std::env::var("VERIF_SCALE").ok().and_then(|s| s.parse().ok()).unwrap_or(1.0);
+    let threads = env_u64("VERIF_THREADS", std::thread::available_parallelism().map(|n| n.get() as u64).unwrap_or(8)) as usize;
+    let profile = if cfg!(debug_assertions) { "release+debug-assertions+overflow-checks" } else { "release" };
+    let def = match props::get(property) {
+        Some(d) => d,
+        None => {
+            println!("INCONCLUSIVE unknown property {}", property);
+            return 2;
+        }
+    };
+    let wd = env_u64("VERIF_WATCHDOG_S", if tier == Tier::Quick { 1800 } else { 6 * 3600 });
+    start_watchdog(property.to_string(), wd);
+    let (open, _fixed) = read_known(property);
+    for (p, _sig, text) in &open {
+        println!("KNOWN-FINDING: property={} {}", p, text);
+    }
+    let ctx = Ctx { property: property.to_string(), tier, seed, scale, threads, profile: profile.to_string(), known: open.clone() };
+
+    // 1. oracle self-test
+    let selftest = match refmodel::selftest(def.needs_pairing) {
+        Ok(v) => v,
+        Err(e) => {
+            println!("INCONCLUSIVE property={} oracle self-test failed: {}", property, e);
+            return 2;
+        }
+    };
+
+    // 2. regressions
+    let mut regressions_replayed = 0;
+    let mut first_failure: Option<(String, PathBuf)> = None;
+    let regdir = root().join("regressions").join(property);
+    if let Ok(rd) = std::fs::read_dir(&regdir) {
+        let mut files: Vec<PathBuf> = rd.filter_map(|e| e.ok()).map(|e| e.path()).filter(|p| p.extension().map(|x| x == "json").unwrap_or(false)).collect();
+        files.sort();
+        for f in files {
+            match replay_file(&f, true) {
+                Ok((_, Ok(()))) => regressions_replayed += 1,
+                Ok((_, Err(m))) => {
+                    regressions_replayed += 1;
+                    if first_failure.is_none() {
+                        first_failure = Some((format!("regression {}: {}", f.display(), m), f.clone()));
+                    }
+                }
+                Err(e) => {
+                    println!("INCONCLUSIVE property={} cannot replay regression: {}", property, e);
+                    return 2;
+                }
+            }
+        }
+    }
+
+    // 3. sub-checks
+    let mut results = vec![];
+    let mut harness_error: Option<String> = None;
+    if first_failure.is_none() {
+        for s in def.subs.iter() {
+            let r = s.run(&ctx);
+            let stop = r.failure.is_some() || r.harness_error.is_some();
+            if let Some(he) = &r.harness_error {
+                harness_error = Some(format!("{}: {}", r.name, he));
+            }
+            if harness_error.is_none() {
+                if let Some(f) = &r.failure {
+                    let p = write_replay(property, f, seed);
+                    first_failure = Some((format!("{}: {}", f.sub, f.message), p));
+                }
+            }
+            eprintln!(
+                "[{}] {:<28} evals={:<8} nontrivial={:<8} distinct={:<8} {:.1}s{}",
+                property,
+                r.name,
+                r.stats.evaluations,
+                r.stats.nontrivial_evals,
+                r.stats.nontrivial.len(),
+                r.wall_s,
+                if stop { "  <-- stopped" } else { "" }
+            );
+            results.push(r);
+            if stop {
+                break;
+            }
+        }
+    }
+
+    // 4. evidence
+    let mut evaluations = 0u64;
+    let mut distinct = 0u64;
+    let mut samples: Vec<Value> = vec![];
+    let mut subchecks = vec![];
+    let mut rules = vec![];
+    let mut known_excluded = 0u64;
+    for r in &results {
+        evaluations += r.stats.evaluations;
+        distinct += r.stats.nontrivial.len() as u64;
+        known_excluded += r.stats.known_excluded;
+        for (class, v) in r.stats.samples.iter().take(4) {
+            samples.push(json!({"sub": r.name, "class": class, "case": v}));
+        }
+        rules.push(format!("[{}] {}", r.name, r.rule));
+        subchecks.push(json!({
+            "name": r.name,
+            "evaluations": r.stats.evaluations,
+            "nontrivial_evaluations": r.stats.nontrivial_evals,
+            "distinct_nontrivial": r.stats.nontrivial.len(),
+            "classes": r.stats.classes,
+            "exhaustive": r.exhaustive,
+            "wall_s": r.wall_s,
+            "failed": r.failure.as_ref().map(|f| f.message.clone()),
+        }));
+    }
+    let violations = if first_failure.is_some() && harness_error.is_none() { 1 } else { 0 };
+    let ev = json!({
+        "property_id": property,
+        "tier": tier.name(),
+        "seed": seed,
+        "level": "exploration",
+        "coverage": {
+            "evaluations": evaluations,
+            "distinct_nontrivial": distinct,
+            "rule": format!("{} || per sub-check: {}", def.rule, rules.join(" ;; ")),
+            "samples": samples,
+            "exhaustive": false,
+            "subchecks": subchecks,
+            "oracle_selftest": selftest,
+            "regressions_replayed": regressions_replayed,
+            "known_findings_excluded": known_excluded,
+            "profile": profile,
+            "threads": threads,
+            "scale": scale,
+        },
+        "assumptions": def.assumptions,
+        "wall_s": t0.elapsed().as_secs_f64(),
+        "violations": violations,
+    });
+    let evdir = root().join("evidence");
+    let _ = std::fs::create_dir_all(&evdir);
+    let suffix = std::env::var("VERIF_EVIDENCE_SUFFIX").unwrap_or_default();
+    let evpath = evdir.join(format!("{}{}.json", property, suffix));
+    if let Err(e) = std::fs::write(&evpath, serde_json::to_string_pretty(&ev).unwrap()) {
+        println!("INCONCLUSIVE property={} cannot write evidence: {}", property, e);
+        return 2;
+    }
+
+    if let Some(he) = harness_error {
+        println!("INCONCLUSIVE property={} harness error: {}", property, he);
+        return 2;
+    }
+    if let Some((msg, path)) = first_failure {
+        println!("{}", msg);
+        println!("VIOLATION property={} replay={}", property, path.display());
+        return 1;
+    }
+    println!(
+        "OK property={} tier={} seed={} evaluations={} distinct_nontrivial={} wall={:.1}s",
+        property,
+        tier.name(),
+        seed,
+        evaluations,
+        distinct,
+        t0.elapsed().as_secs_f64()
+    );
+    0
+}
+
+fn main() {
+    engine::install_panic_hook();
+    let args: Vec<String> = std::env::args().collect();
+    let code = match args.get(1).map(|s| s.as_str()) {
+        Some("run") => {
+            let prop = args.get(2).cloned().unwrap_or_default();
+            let tier = match args.get(3).map(|s| s.as_str()).or(std::env::var("VERIF_TIER").ok().as_deref().map(|s| if s == "thorough" { "thorough" } else { "quick" })) {
+                Some("thorough") => Tier::Thorough,
+                _ => Tier::Quick,
+            };
+            run(&prop, tier)
+        }
+        Some("replay") => {
+            let path = PathBuf::from(args.get(2).cloned().unwrap_or_default());
+            match replay_file(&path, false) {
+                Ok((_, Ok(()))) => 0,
+                Ok((p, Err(_))) => {
+                    println!("VIOLATION property={} replay={}", p, path.display());
+                    1
+                }
+                Err(e) => {
+                    println!("INCONCLUSIVE {}", e);
+                    2
+                }
+            }
+        }
+        Some("selftest") => match refmodel::selftest(true) {
+            Ok(v) => {
+                for l in v {
+                    println!("ok: {}", l);
+                }
+                0
+            }
+            Err(e) => {
+                println!("INCONCLUSIVE oracle self-test failed: {}", e);
+                2
+            }
+        },
+        Some("list") => {
+            for id in props::ids() {
+                let d = props::get(id).unwrap();
+                println!("{} : {}", id, d.subs.iter().map(|s| s.name().to_string()).collect::<Vec<_>>().join(", "));
+            }
+            0
+        }
+        _ => {
+            eprintln!("usage: verif-pbt run <Cxx> [quick|thorough] | replay <file> | selftest | list");
+            2
+        }
+    };
+    std::process::exit(code);
+}
